@@ -678,3 +678,7 @@ PLANS["C15"]["quick"] = PLANS["C15"]["quick"] + [fam("meta-CAT-partial-primal", 
 # B^-1 / tableau rows on the catalogue CP (3..5 rows, fixed and boxed columns)
 PLANS["C13"]["quick"] = PLANS["C13"]["quick"] + [fac("binv-CP", "prod", {"fam": "CP"}, weight=1, family="binv")]
 PLANS["C13"]["thorough"] = PLANS["C13"]["thorough"] + [fac("binv-CP", "prod", {"fam": "CP"}, weight=1, family="binv"), fac("binv-CP-san", "san", {"fam": "CP"}, weight=1, family="binv")]
+
+# C18 quick: the copy interleavings are cut to their first 12000 items (all of them run in C16 quick and in C18 thorough)
+PLANS["C18"]["quick"] = [dict(r, range=[0, 12000]) if r["id"] == "copy-s1-san" else r for r in PLANS["C18"]["quick"]]
+_dl("C18", quick=900)
